@@ -312,6 +312,8 @@ def check_prefix_consistency(repo: Repo, rep, skip=()):
 
 
 def run(repo: Repo, rep, tier: str):
+    from props.c14 import check_purity
+    rep.guarded(check_purity, repo, rep, "C13-R4")
     rid = "C13-R1"
     rep.rule(rid, "dependence analysis of every public indicator (sequential=True; default parameters and shifted periods): no element "
                   "i of any returned series may depend - through data or control flow - on a candle j > i")
